@@ -1,7 +1,997 @@
-//! C08 — not built yet (stub).
+//! C08 — NSEC denial of existence is sound and complete.
+//!
+//! Soundness (semantic): for a model zone Z, a query q, a claim c (NXDOMAIN / NODATA /
+//! wildcard-expanded answer) and *any* non-empty subset of Z's genuine NSEC chain,
+//! `verify_nsec(..) == Secure` ⇒ c is TRUE in Z according to the truth predicate of
+//! `refm::zonemodel` (RFC 1034 §4.3.2 + RFC 4592 + RFC 4035 §3.1.4 — not a re-reading of RFC 4035
+//! §5.4).  Completeness: for every (Z, q) whose truth is negative or wildcard-expanded, the NSECs
+//! hickory's own server attaches make `verify_nsec` (and, sampled, the real `DnssecDnsHandle`)
+//! accept the response.
 
-use crate::core::Check;
+use std::cell::RefCell;
+use std::rc::Rc;
+
+use hickory_net::dnssec::verif_hooks::verify_nsec;
+use hickory_proto::dnssec::rdata::NSEC;
+use hickory_proto::op::{Query, ResponseCode};
+use hickory_proto::rr::{Name, Record};
+use proptest::prelude::*;
+use serde::{Deserialize, Serialize};
+
+use crate::core::{enumerate, prop, CaseResult, Check, Env, Fail, Rec, Tier};
+use crate::gen::zonebuild::{self as zb, abs_q, hk_nsec, rtype, to_name, wild_answers, HkZone, NxKind};
+use crate::gen::nzones::{self as zones, masks_for, ZText};
+use crate::refm::zonemodel::{nsec_chain, show, ty, Claim, NsecRec, Truth, Zone};
+
+/// signatures of the deviations recorded as known findings (one per root cause); anything else
+/// found in the same case is reported first so that it can never hide behind them
+pub const NARROW_SIGS: [&str; 14] = [
+    "nsec-ent-treated-as-nonexistent",
+    "nsec-ancestor-delegation-nsec-accepted",
+    "nsec-no-soa-parent-assumed-closest-encloser",
+    "nsec-wildcard-answer-closer-encloser-exists",
+    "nsec-query-below-wildcard-label",
+    "nsec-ent-nodata-rejected",
+    "nsec-server-no-proof-in-apex-only-zone",
+    "nsec-server-proof-lacks-closest-encloser-wildcard-cover",
+    "nsec-server-proof-lacks-wildcard-nsec",
+    "nsec-wildcard-answer-one-label-expansion-rejected",
+    "nsec-wildcard-answer-wraparound-cover-rejected-without-soa",
+    "server-nxdomain-when-wildcard-exists-without-type",
+    "server-wildcard-synthesis-ignores-closest-encloser",
+    "server-no-synthesis-for-asterisk-qname",
+];
+
+pub fn pick_deviation(mut devs: Vec<Fail>, narrow: &[&str]) -> CaseResult {
+    if devs.is_empty() {
+        return Ok(());
+    }
+    devs.sort_by_key(|f| narrow.contains(&f.sig.as_str()));
+    if std::env::var_os("VERIF_TRIAGE").is_some() {
+        for d in devs {
+            let _ = triage(d);
+        }
+        return Ok(());
+    }
+    Err(devs.swap_remove(0))
+}
+
+/// development aid (VERIF_TRIAGE=1): do not stop at deviations, print the first few per
+/// signature and a total per signature at exit; never set in a real run
+pub fn triage(f: Fail) -> CaseResult {
+    use std::collections::BTreeMap;
+    use std::sync::Mutex;
+    static SEEN: Mutex<BTreeMap<String, u64>> = Mutex::new(BTreeMap::new());
+    if std::env::var_os("VERIF_TRIAGE").is_none() {
+        return Err(f);
+    }
+    let mut m = SEEN.lock().unwrap();
+    let n = m.entry(f.sig.clone()).or_default();
+    *n += 1;
+    if *n <= 3 || n.is_power_of_two() {
+        eprintln!("TRIAGE {} #{}: {}", f.sig, n, f.msg);
+    }
+    Ok(())
+}
+
+// ---------------------------------------------------------------------------------------------
+// per-thread fixture cache (enumerations are zone-major, so the last zone is reused)
+
+pub struct SoundCtx {
+    pub zone: Zone,
+    pub apex: Name,
+    pub chain: Vec<NsecRec>,
+    pub hk: Vec<(Name, NSEC)>,
+}
+
+thread_local! {
+    static SOUND: RefCell<Option<(ZText, Rc<SoundCtx>)>> = const { RefCell::new(None) };
+    static HK: RefCell<Option<(ZText, Rc<(Zone, HkZone)>)>> = const { RefCell::new(None) };
+}
+
+pub fn parse_zone(z: &ZText) -> Result<Zone, Fail> {
+    Zone::parse(z.as_str()).map_err(|e| Fail::new("harness-bad-zone-text", format!("{e}: {}", z.as_str())))
+}
+
+fn sound_ctx(z: &ZText) -> Result<Rc<SoundCtx>, Fail> {
+    SOUND.with(|c| {
+        let mut c = c.borrow_mut();
+        if let Some((k, v)) = c.as_ref() {
+            if k == z {
+                return Ok(v.clone());
+            }
+        }
+        let zone = parse_zone(z)?;
+        let chain = nsec_chain(&zone);
+        let hk = chain.iter().map(hk_nsec).collect();
+        let v = Rc::new(SoundCtx {
+            apex: to_name(&zone.apex),
+            zone,
+            chain,
+            hk,
+        });
+        *c = Some((z.clone(), v.clone()));
+        Ok(v)
+    })
+}
+
+fn hk_ctx(z: &ZText) -> Result<Rc<(Zone, HkZone)>, Fail> {
+    HK.with(|c| {
+        let mut c = c.borrow_mut();
+        if let Some((k, v)) = c.as_ref() {
+            if k == z {
+                return Ok(v.clone());
+            }
+        }
+        let zone = parse_zone(z)?;
+        let hz = zb::build_hk_zone(&zone, &NxKind::Nsec).map_err(|e| Fail::new("harness-zone-build", e))?;
+        let v = Rc::new((zone, hz));
+        *c = Some((z.clone(), v.clone()));
+        Ok(v)
+    })
+}
+
+// ---------------------------------------------------------------------------------------------
+// soundness
+
+#[derive(Clone, Debug, Serialize, Deserialize)]
+pub struct SoundCase {
+    pub zone: ZText,
+    /// query name relative to the apex (`@` = apex)
+    pub q: ZText,
+    /// query types evaluated
+    pub qtypes: Vec<u16>,
+    /// 0 = all non-empty subsets of the chain; otherwise seed of the sampled subset list
+    pub mask_seed: u64,
+}
+
+pub const QTYPES4: [u16; 4] = [ty::A, ty::TXT, ty::DS, ty::NS];
+
+pub struct ClaimCase {
+    pub claim: Claim,
+    pub rcode: ResponseCode,
+    pub answers: Vec<Record>,
+}
+
+/// the claims that can be put to a validator for (q, qtype): NXDOMAIN, NODATA, and every
+/// wildcard-expanded answer for which a genuine RRSIG exists in the zone
+pub fn claims_for(zone: &Zone, q: &[Vec<u8>], qn: &Name, apex: &Name, qtype: u16) -> Vec<ClaimCase> {
+    let mut v = vec![
+        ClaimCase {
+            claim: Claim::NxDomain,
+            rcode: ResponseCode::NXDomain,
+            answers: vec![],
+        },
+        ClaimCase {
+            claim: Claim::NoData,
+            rcode: ResponseCode::NoError,
+            answers: vec![],
+        },
+    ];
+    for (i, w) in zone.wild_candidates(q, qtype).into_iter().enumerate() {
+        let answers = wild_answers(qn, apex, w.answer_type, w.labels);
+        if i == 0 && w.answer_type != ty::CNAME {
+            v.push(ClaimCase {
+                claim: Claim::NxWithWildAnswer { labels: w.labels },
+                rcode: ResponseCode::NXDomain,
+                answers: answers.clone(),
+            });
+        }
+        v.push(ClaimCase {
+            claim: Claim::WildAnswer { labels: w.labels },
+            rcode: ResponseCode::NoError,
+            answers,
+        });
+    }
+    v
+}
+
+fn render_subset(chain: &[NsecRec], mask: u32) -> String {
+    chain
+        .iter()
+        .enumerate()
+        .filter(|(i, _)| mask >> i & 1 == 1)
+        .map(|(_, r)| {
+            format!(
+                "{} NSEC {} ({})",
+                show(&r.owner),
+                show(&r.next),
+                r.types.iter().map(|t| ty::mnemonic(*t)).collect::<Vec<_>>().join(" ")
+            )
+        })
+        .collect::<Vec<_>>()
+        .join("; ")
+}
+
+pub fn classify_unsound(cx: &SoundCtx, q: &[Vec<u8>], claim: Claim, truth: &Truth, soa: bool, mask: u32) -> String {
+    use crate::refm::zonemodel::{is_wildcard_name, Exist};
+    let in_subset = |owner: &[Vec<u8>]| {
+        cx.chain
+            .iter()
+            .enumerate()
+            .any(|(i, r)| mask >> i & 1 == 1 && crate::refm::canon::name_eq(&r.owner, owner))
+    };
+    // the true closest encloser, where the name does not exist
+    let ce = match truth {
+        Truth::NxDomain { ce } | Truth::WildAnswer { ce, .. } | Truth::WildNoData { ce, .. } => Some(ce),
+        _ => None,
+    };
+    // an existing proper ancestor of q below the apex whose leftmost label is `*`
+    let star_ancestor = (cx.zone.apex.len() + 1..q.len()).any(|len| {
+        let anc = &q[q.len() - len..];
+        is_wildcard_name(anc) && cx.zone.exist(anc) != Exist::No
+    });
+    match (claim, truth) {
+        // RFC 4035 §5.4 / RFC 6840 §4.1: an ancestor delegation NSEC must not be used for the
+        // delegation owner (other than DS) or anything below it
+        (_, Truth::Referral { cut, .. }) if in_subset(cut) => "nsec-ancestor-delegation-nsec-accepted".into(),
+        // without an SOA in the authority section the parent of the query name is taken as the
+        // closest encloser although nothing proves that it exists
+        (Claim::NxDomain | Claim::NoData, _) if !soa && !star_ancestor && ce.is_some_and(|ce| ce.len() + 1 < q.len()) => {
+            "nsec-no-soa-parent-assumed-closest-encloser".into()
+        }
+        // RFC 4035 §5.4 / RFC 4592 §2.2.2: a name covered by an NSEC whose next name is a
+        // descendant of it exists (as an empty non-terminal) — for the query name or for the
+        // source of synthesis
+        (Claim::NxDomain | Claim::WildAnswer { .. } | Claim::NxWithWildAnswer { .. }, Truth::NoData { ent: true, .. })
+        | (Claim::NxDomain, Truth::WildNoData { wildcard_is_ent: true, .. })
+            if !star_ancestor =>
+        {
+            "nsec-ent-treated-as-nonexistent".into()
+        }
+        // RFC 4035 §5.3.4: a wildcard-expanded answer needs proof that no closer match exists;
+        // here the true closest encloser is longer than the one the RRSIG Labels field claims
+        (Claim::WildAnswer { labels }, _) if !star_ancestor && ce.is_some_and(|ce| ce.len() > labels as usize) => {
+            "nsec-wildcard-answer-closer-encloser-exists".into()
+        }
+        // RFC 4592 §2.1.1/§3.3.1: `*` is an ordinary label in the domain tree; hickory's
+        // Name::num_labels() does not count a leading `*`, which derails the closest-encloser
+        // arithmetic for names below an existing `*` node
+        _ if star_ancestor => "nsec-query-below-wildcard-label".into(),
+        _ => format!("nsec-unsound-{}-when-{}", claim.kind(), truth.kind()),
+    }
+}
+
+fn sound_body(c: &SoundCase, rec: &mut Rec) -> CaseResult {
+    let cx = sound_ctx(&c.zone)?;
+    let q = abs_q(&cx.zone, c.q.as_str());
+    let qn = to_name(&q);
+    let k = cx.chain.len();
+    let masks: Vec<u32> = if c.mask_seed == 0 {
+        (1..(1u32 << k)).collect()
+    } else {
+        masks_for(k, c.mask_seed, 48)
+    };
+    rec.class(zb::pos_class(&cx.zone, &q));
+    rec.class(format!("chain-len-{}", k.min(9)));
+    let mut devs: Vec<Fail> = Vec::new();
+    let (mut calls, mut secure, mut true_claims, mut false_claims, mut secure_true) = (0u64, 0u64, 0u64, 0u64, 0u64);
+    let mut full_rejects = 0u64;
+    for &qtype in &c.qtypes {
+        let truth = cx.zone.truth(&q, qtype);
+        rec.count(format!("truth/{}", truth.kind()), 1);
+        let query = Query::new(qn.clone(), rtype(qtype));
+        for cc in claims_for(&cx.zone, &q, &qn, &cx.apex, qtype) {
+            let expected = cx.zone.claim_true(&q, qtype, cc.claim);
+            if expected {
+                true_claims += 1;
+            } else {
+                false_claims += 1;
+            }
+            for soa in [Some(&cx.apex), None] {
+                let mut worst: Option<u32> = None;
+                for &mask in &masks {
+                    let sel: Vec<(&Name, &NSEC)> = cx
+                        .hk
+                        .iter()
+                        .enumerate()
+                        .filter(|(i, _)| mask >> i & 1 == 1)
+                        .map(|(_, (n, d))| (n, d))
+                        .collect();
+                    let p = verify_nsec(&query, soa, cc.rcode, &cc.answers, &sel);
+                    calls += 1;
+                    if p.is_secure() {
+                        secure += 1;
+                        if expected {
+                            secure_true += 1;
+                        } else if worst.is_none_or(|w| mask.count_ones() < w.count_ones()) {
+                            worst = Some(mask);
+                        }
+                    } else if expected && soa.is_some() && mask == (1u32 << k) - 1 {
+                        full_rejects += 1;
+                    }
+                }
+                if let Some(mask) = worst {
+                    let sig = classify_unsound(&cx, &q, cc.claim, &truth, soa.is_some(), mask);
+                    devs.push(Fail::new(
+                        sig,
+                        format!(
+                            "zone [{}] query {} {} claim {:?} soa={} accepted as Secure on {{{}}} but the truth is {}",
+                            cx.zone.render(),
+                            qn,
+                            ty::mnemonic(qtype),
+                            cc.claim,
+                            soa.map(|n| n.to_string()).unwrap_or_else(|| "-".into()),
+                            render_subset(&cx.chain, mask),
+                            truth
+                        ),
+                    ));
+                }
+            }
+        }
+    }
+    rec.count("verify_calls", calls);
+    rec.count("secure_verdicts", secure);
+    rec.count("secure_on_true_claim", secure_true);
+    rec.count("claims_true", true_claims);
+    rec.count("claims_false", false_claims);
+    rec.count("true_claim_rejected_with_full_chain", full_rejects);
+    // NT (DESIGN §7 C08): some evaluated (claim, subset) is Secure, or a proper subset of a
+    // sufficient proof (a true claim exists, subsets of the full chain are tried), or the claim
+    // is false — at least one of NXDOMAIN / NODATA is false for every query, so every in-zone
+    // case counts; out-of-zone names are trivial.
+    if !matches!(cx.zone.pos(&q), crate::refm::zonemodel::Pos::Out) {
+        rec.nontrivial();
+        if secure > 0 && rec.wants_note() {
+            rec.note(format!(
+                "zone [{}] q={} types={:?}: {} verify_nsec calls over {} subsets, {} Secure ({} on true claims)",
+                cx.zone.render(),
+                qn,
+                c.qtypes,
+                calls,
+                masks.len(),
+                secure,
+                secure_true
+            ));
+        }
+    }
+    pick_deviation(devs, &NARROW_SIGS)
+}
+
+fn enum_cases(max_nodes: usize, stride: usize, offset: usize) -> Box<dyn Iterator<Item = SoundCase> + Send> {
+    let zones = zones::enum_zones(zones::APEX2, &zones::U2_NAMES, max_nodes);
+    let qs: Vec<ZText> = zones::Q2_NAMES.iter().map(|s| ZText::new(s)).collect();
+    Box::new(
+        zones
+            .into_iter()
+            .enumerate()
+            .filter(move |(i, _)| i % stride == offset % stride)
+            .flat_map(move |(_, z)| {
+                let qs = qs.clone();
+                qs.into_iter().map(move |q| SoundCase {
+                    zone: z.clone(),
+                    q,
+                    qtypes: QTYPES4.to_vec(),
+                    mask_seed: 0,
+                })
+            }),
+    )
+}
+
+fn sampled_sound(max_nodes: usize) -> impl Strategy<Value = SoundCase> {
+    (zones::zone_text(max_nodes), zones::qpick(), zones::qtype_pick(), 1u64..u64::MAX).prop_map(
+        |(zone, pick, qtype, seed)| {
+            let q = match Zone::parse(zone.as_str()) {
+                Ok(z) => zones::resolve_q(&pick, &zb::owners_rel(&z)),
+                Err(_) => "@".into(),
+            };
+            SoundCase {
+                zone,
+                q: ZText::new(&q),
+                qtypes: vec![qtype],
+                mask_seed: seed,
+            }
+        },
+    )
+}
+
+// ---------------------------------------------------------------------------------------------
+// completeness against hickory's own server
+
+#[derive(Clone, Debug, Serialize, Deserialize)]
+pub struct CompCase {
+    pub zone: ZText,
+    pub q: ZText,
+    pub qtype: u16,
+}
+
+#[derive(Debug, PartialEq, Eq)]
+pub enum ServerKind {
+    Referral,
+    NxDomain,
+    NoData,
+    WildAnswer(u8),
+    Positive,
+    Other(String),
+}
+
+pub fn server_kind(p: &zb::NegParts) -> ServerKind {
+    if p.referral {
+        ServerKind::Referral
+    } else if p.rcode == ResponseCode::NXDomain && p.answers.is_empty() {
+        ServerKind::NxDomain
+    } else if p.rcode == ResponseCode::NoError && p.answers.is_empty() {
+        ServerKind::NoData
+    } else if p.rcode == ResponseCode::NoError {
+        match p.wildcard_rrsig_labels {
+            Some(l) => ServerKind::WildAnswer(l),
+            None => ServerKind::Positive,
+        }
+    } else {
+        ServerKind::Other(format!("{:?}", p.rcode))
+    }
+}
+
+/// does the server's answer have the shape the truth predicts (otherwise the deviation is an
+/// authoritative-answer matter, property C10, and this property says nothing)
+pub fn kinds_agree(truth: &Truth, k: &ServerKind) -> bool {
+    match (truth, k) {
+        (Truth::NxDomain { .. }, ServerKind::NxDomain) => true,
+        (Truth::NoData { .. } | Truth::WildNoData { .. }, ServerKind::NoData) => true,
+        (Truth::WildAnswer { ce, .. }, ServerKind::WildAnswer(l)) => ce.len() == *l as usize,
+        _ => false,
+    }
+}
+
+/// which NSEC of the genuine chain covers `name` (owner < name < next, the last record wraps)
+fn model_cover<'a>(chain: &'a [NsecRec], name: &[Vec<u8>]) -> Option<&'a NsecRec> {
+    use crate::refm::zonemodel::cmp_names;
+    use std::cmp::Ordering::*;
+    chain.iter().enumerate().find_map(|(i, r)| {
+        let after_owner = cmp_names(name, &r.owner) == Greater;
+        let before_next = cmp_names(name, &r.next) == Less;
+        (after_owner && (before_next || i + 1 == chain.len())).then_some(r)
+    })
+}
+
+/// Signature of a rejected server proof, by root cause. The model chain tells whether the
+/// records RFC 4035 §3.1.3 requires were attached at all (server side) or were attached and
+/// still rejected (validator side).
+fn classify_incomplete(zone: &Zone, q: &[Vec<u8>], truth: &Truth, parts: &zb::NegParts) -> String {
+    use crate::refm::zonemodel::{is_wildcard_name, wildcard_of, Exist};
+    let chain = nsec_chain(zone);
+    let attached = |r: &NsecRec| {
+        let o = to_name(&r.owner);
+        parts.nsecs.iter().any(|(n, _)| *n == o)
+    };
+    let star_ancestor = (zone.apex.len() + 1..q.len()).any(|len| {
+        let anc = &q[q.len() - len..];
+        is_wildcard_name(anc) && zone.exist(anc) != Exist::No
+    });
+    if star_ancestor {
+        // same root cause as on the soundness side: Name::num_labels() ignores a leading `*`
+        return "nsec-query-below-wildcard-label".into();
+    }
+    let q_cover = model_cover(&chain, q);
+    let q_cover_attached = q_cover.is_some_and(attached);
+    match truth {
+        // RFC 4035 §3.1.3.2 / RFC 4592: NODATA for an empty non-terminal is proven by the NSEC
+        // that covers it (its next name is a descendant)
+        Truth::NoData { ent: true, .. } if q_cover_attached => "nsec-ent-nodata-rejected".into(),
+        Truth::NxDomain { ce } => {
+            let w_cover = model_cover(&chain, &wildcard_of(ce));
+            if q_cover_attached && !w_cover.is_some_and(attached) {
+                // the server picks the NSEC around the *parent* of qname, not the one covering
+                // the wildcard at the closest encloser
+                "nsec-server-proof-lacks-closest-encloser-wildcard-cover".into()
+            } else {
+                "nsec-incomplete-nxdomain".into()
+            }
+        }
+        Truth::WildAnswer { ce, .. } if q_cover_attached => {
+            if q.len() == ce.len() + 1 {
+                // without an SOA the parent of qname is taken as closest encloser and `*.parent`
+                // (= the wildcard that was expanded) is required to be covered
+                "nsec-wildcard-answer-one-label-expansion-rejected".into()
+            } else if q_cover.is_some_and(|r| crate::refm::canon::name_eq(&r.next, &zone.apex)) {
+                // the last NSEC of the chain covers by wrap-around, which is only recognised
+                // when an SOA name is available; positive answers carry none
+                "nsec-wildcard-answer-wraparound-cover-rejected-without-soa".into()
+            } else {
+                "nsec-incomplete-wild-answer".into()
+            }
+        }
+        Truth::WildNoData { ce, .. } => {
+            let w = wildcard_of(ce);
+            let w_match = chain.iter().find(|r| crate::refm::canon::name_eq(&r.owner, &w));
+            if q_cover_attached && !w_match.is_some_and(attached) {
+                "nsec-server-proof-lacks-wildcard-nsec".into()
+            } else {
+                "nsec-incomplete-wild-nodata".into()
+            }
+        }
+        t => format!("nsec-incomplete-{}", t.kind()),
+    }
+}
+
+fn render_nsecs(n: &[(Name, NSEC)]) -> String {
+    n.iter()
+        .map(|(o, d)| {
+            format!(
+                "{} NSEC {} ({})",
+                o,
+                d.next_domain_name(),
+                d.type_bit_maps().map(|t| t.to_string()).collect::<Vec<_>>().join(" ")
+            )
+        })
+        .collect::<Vec<_>>()
+        .join("; ")
+}
+
+/// The server's answer does not have the shape RFC 1034 §4.3.2 / RFC 4592 prescribe (the claim it
+/// makes is false in the zone) and the validator — rightly — does not accept it. The property's
+/// "for every signed zone and every query" is violated all the same; the root cause lies in the
+/// authoritative lookup (property C10's subject), one signature per cause.
+pub fn shape_sig(q: &[Vec<u8>], truth: &Truth, sk: &ServerKind) -> String {
+    match (truth, sk) {
+        // RFC 4592 §2.1.3 (and §3.3.1): an asterisk label in a *query* name is not special; the
+        // server refuses to synthesise for any qname whose first label is `*`
+        (Truth::WildAnswer { .. }, ServerKind::NxDomain | ServerKind::NoData)
+            if crate::refm::zonemodel::is_wildcard_name(q) =>
+        {
+            "server-no-synthesis-for-asterisk-qname".into()
+        }
+        // no NODATA for "wildcard matches but has no such type" (RFC 4592 §3.3.1 / §2.2.3:
+        // the source of synthesis exists, possibly as an empty non-terminal)
+        (Truth::WildNoData { .. }, ServerKind::NxDomain) => "server-nxdomain-when-wildcard-exists-without-type".into(),
+        // wildcard synthesis is tried whenever the exact lookup finds nothing: for existing
+        // names without the type, for empty non-terminals, and from wildcards above the closest
+        // encloser (RFC 4592 §3.3.1)
+        (_, ServerKind::WildAnswer(_)) => "server-wildcard-synthesis-ignores-closest-encloser".into(),
+        (t, k) => format!("server-answers-{k:?}-when-{}", t.kind()).replace(|c: char| c.is_ascii_digit(), "N"),
+    }
+}
+
+fn comp_body(c: &CompCase, rec: &mut Rec) -> CaseResult {
+    let cx = hk_ctx(&c.zone)?;
+    let (zone, hz) = (&cx.0, &cx.1);
+    let q = abs_q(zone, c.q.as_str());
+    let qn = to_name(&q);
+    let truth = zone.truth(&q, c.qtype);
+    if !truth.is_negative_or_wild() {
+        rec.discard(format!("truth-{}", truth.kind()));
+        return Ok(());
+    }
+    let m = zb::ask(hz, &qn, rtype(c.qtype)).map_err(|e| Fail::new("harness-ask", e))?;
+    let parts = zb::split_response(&m);
+    let sk = server_kind(&parts);
+    let agree = kinds_agree(&truth, &sk);
+    rec.class(format!("truth-{}", truth.kind()));
+    rec.class(format!("attached-nsecs-{}", parts.nsecs.len()));
+    rec.class(if agree { "server-shape-as-truth" } else { "server-shape-differs" });
+    rec.nontrivial();
+    let query = Query::new(qn.clone(), rtype(c.qtype));
+    let sel: Vec<(&Name, &NSEC)> = parts.nsecs.iter().map(|(n, d)| (n, d)).collect();
+    let render = || {
+        format!(
+            "zone [{}] query {} {} truth {}: server answered {:?} (rcode={:?} answers={} soa={:?}) nsecs {{{}}}",
+            zone.render(),
+            qn,
+            ty::mnemonic(c.qtype),
+            truth,
+            sk,
+            parts.rcode,
+            parts.answers.len(),
+            parts.soa_name.as_ref().map(|n| n.to_string()),
+            render_nsecs(&parts.nsecs)
+        )
+    };
+    // `verify_response` calls verify_nsec only when NSECs are present; without any, a negative
+    // or wildcard response ends up Bogus
+    let p = if sel.is_empty() {
+        None
+    } else {
+        Some(verify_nsec(&query, parts.soa_name.as_ref(), parts.rcode, &parts.answers, &sel))
+    };
+    if rec.wants_note() {
+        rec.note(format!("{} -> {:?}", render(), p));
+    }
+    let secure = p.is_some_and(|p| p.is_secure());
+    match (agree, secure) {
+        (true, true) => Ok(()),
+        (true, false) if sel.is_empty() => {
+            // a zone whose only owner is the apex has the single NSEC apex -> apex (RFC 4034 §4.1.1)
+            let sig = if zone.tree_owners().len() == 1 {
+                "nsec-server-no-proof-in-apex-only-zone"
+            } else {
+                "nsec-server-attached-no-nsec"
+            };
+            triage(Fail::new(sig, render()))
+        }
+        (true, false) => triage(Fail::new(
+            classify_incomplete(zone, &q, &truth, &parts),
+            format!("{} -> verify_nsec = {:?}", render(), p),
+        )),
+        (false, false) => triage(Fail::new(
+            shape_sig(&q, &truth, &sk),
+            format!("{} -> verify_nsec = {:?} (the claim is false in the zone)", render(), p),
+        )),
+        (false, true) => {
+            // a false claim made by the server itself and accepted: soundness
+            let claim = match sk {
+                ServerKind::NxDomain => Claim::NxDomain,
+                ServerKind::NoData => Claim::NoData,
+                ServerKind::WildAnswer(l) => Claim::WildAnswer { labels: l },
+                _ => Claim::NoData,
+            };
+            let chain = nsec_chain(zone);
+            let mut mask = 0u32;
+            for (i, r) in chain.iter().enumerate() {
+                let o = to_name(&r.owner);
+                if parts.nsecs.iter().any(|(n, _)| *n == o) {
+                    mask |= 1 << i;
+                }
+            }
+            let scx = SoundCtx {
+                zone: zone.clone(),
+                apex: hz.apex.clone(),
+                hk: vec![],
+                chain,
+            };
+            triage(Fail::new(
+                classify_unsound(&scx, &q, claim, &truth, parts.soa_name.is_some(), mask),
+                format!("{} -> verify_nsec = Secure although the claim is false in the zone", render()),
+            ))
+        }
+    }
+}
+
+fn comp_enum_cases(max_nodes: usize, stride: usize) -> Box<dyn Iterator<Item = CompCase> + Send> {
+    let zl = zones::enum_zones(zones::APEX2, &zones::U2_NAMES, max_nodes);
+    Box::new(zl.into_iter().enumerate().filter(move |(i, _)| i % stride == 0).flat_map(|(_, zt)| {
+        let zone = Zone::parse(zt.as_str()).expect("enumerated zones parse");
+        let mut v = Vec::new();
+        for qs in zones::Q2_NAMES {
+            let q = abs_q(&zone, qs);
+            for t in QTYPES4 {
+                if zone.truth(&q, t).is_negative_or_wild() {
+                    v.push(CompCase {
+                        zone: zt.clone(),
+                        q: ZText::new(qs),
+                        qtype: t,
+                    });
+                }
+            }
+        }
+        v.into_iter()
+    }))
+}
+
+/// sampled (zone, query) with negative / wildcard truth: the query is *constructed* from the
+/// zone (candidate pool filtered by the truth predicate), not rejected
+pub fn sampled_comp(max_nodes: usize) -> impl Strategy<Value = CompCase> {
+    (
+        zones::zone_text(max_nodes),
+        proptest::collection::vec((zones::qpick(), zones::qtype_pick()), 6),
+    )
+        .prop_map(|(zone, picks)| {
+            let parsed = Zone::parse(zone.as_str());
+            let mut chosen: Option<(String, u16)> = None;
+            let mut first: Option<(String, u16)> = None;
+            if let Ok(z) = &parsed {
+                let owners = zb::owners_rel(z);
+                for (p, t) in &picks {
+                    let q = zones::resolve_q(p, &owners);
+                    if first.is_none() {
+                        first = Some((q.clone(), *t));
+                    }
+                    if z.truth(&abs_q(z, &q), *t).is_negative_or_wild() {
+                        chosen = Some((q, *t));
+                        break;
+                    }
+                }
+            }
+            let (q, qtype) = chosen.or(first).unwrap_or(("@".into(), ty::TXT));
+            CompCase {
+                zone,
+                q: ZText::new(&q),
+                qtype,
+            }
+        })
+}
+
+// ---------------------------------------------------------------------------------------------
+// end to end: the same responses through the real DnssecDnsHandle (real signatures, trust
+// anchor = zone key, validator clock = virtual clock)
+
+#[derive(Debug)]
+pub enum E2eVerdict {
+    /// Ok(response); `all_secure` = every answer/authority record carries Proof::Secure
+    Accepted { all_secure: bool, rcode: ResponseCode, answers: usize },
+    /// Err(DnsError::Nsec { proof })
+    NsecRejected(String),
+    OtherError(String),
+}
+
+pub fn e2e_query(hz: &HkZone, qn: &Name, qtype: u16, limits: Option<(u16, u16)>) -> Result<E2eVerdict, Fail> {
+    use futures_util::StreamExt;
+    use hickory_net::dnssec::DnssecDnsHandle;
+    use hickory_net::xfer::DnsHandle;
+    use hickory_net::{DnsError, NetError};
+    use hickory_proto::dnssec::Proof;
+    use hickory_proto::op::DnsRequestOptions;
+    use hickory_proto::rr::RecordType;
+
+    let mut sim = crate::sim::Sim::new(zb::T0 + 60);
+    let handle = zb::CatalogHandle {
+        catalog: hz.catalog.clone(),
+        log: Default::default(),
+    };
+    let mut dh = DnssecDnsHandle::with_trust_anchor(handle, zb::trust_anchor(hz)).validation_cache_size(256);
+    if let Some((soft, hard)) = limits {
+        dh = dh.nsec3_iteration_limits(Some(soft), Some(hard));
+    }
+    let query = Query::new(qn.clone(), rtype(qtype));
+    let fut = async move {
+        let mut s = dh.lookup(query, DnsRequestOptions::default());
+        s.next().await
+    };
+    let r = sim
+        .run(fut, 10_000)
+        .map_err(|e| Fail::new("harness-sim", format!("simulation ended with {e:?}")))?;
+    Ok(match r {
+        None => E2eVerdict::OtherError("empty response stream".into()),
+        Some(Ok(resp)) => {
+            let all_secure = resp
+                .answers
+                .iter()
+                .chain(resp.authorities.iter())
+                .filter(|r| r.record_type() != RecordType::OPT)
+                .all(|r| r.proof == Proof::Secure);
+            E2eVerdict::Accepted {
+                all_secure,
+                rcode: resp.metadata.response_code,
+                answers: resp.answers.len(),
+            }
+        }
+        Some(Err(NetError::Dns(DnsError::Nsec { proof, .. }))) => E2eVerdict::NsecRejected(format!("{proof:?}")),
+        Some(Err(e)) => E2eVerdict::OtherError(e.to_string()),
+    })
+}
+
+fn e2e_body(c: &CompCase, rec: &mut Rec) -> CaseResult {
+    let cx = hk_ctx(&c.zone)?;
+    let (zone, hz) = (&cx.0, &cx.1);
+    let q = abs_q(zone, c.q.as_str());
+    let qn = to_name(&q);
+    let truth = zone.truth(&q, c.qtype);
+    if !truth.is_negative_or_wild() {
+        rec.discard(format!("truth-{}", truth.kind()));
+        return Ok(());
+    }
+    // what the server says (for classification) and what the direct call says
+    let m = zb::ask(hz, &qn, rtype(c.qtype)).map_err(|e| Fail::new("harness-ask", e))?;
+    let parts = zb::split_response(&m);
+    let sk = server_kind(&parts);
+    let agree = kinds_agree(&truth, &sk);
+    let sel: Vec<(&Name, &NSEC)> = parts.nsecs.iter().map(|(n, d)| (n, d)).collect();
+    let direct = (!sel.is_empty()).then(|| {
+        verify_nsec(
+            &Query::new(qn.clone(), rtype(c.qtype)),
+            parts.soa_name.as_ref(),
+            parts.rcode,
+            &parts.answers,
+            &sel,
+        )
+    });
+    let direct_secure = direct.is_some_and(|p| p.is_secure());
+    let v = e2e_query(hz, &qn, c.qtype, None)?;
+    let e2e_secure = matches!(v, E2eVerdict::Accepted { all_secure: true, .. });
+    rec.class(format!("truth-{}", truth.kind()));
+    rec.class(if agree { "server-shape-as-truth" } else { "server-shape-differs" });
+    rec.class(format!("e2e-{}", match &v {
+        E2eVerdict::Accepted { all_secure: true, .. } => "secure",
+        E2eVerdict::Accepted { .. } => "accepted-not-all-secure",
+        E2eVerdict::NsecRejected(_) => "nsec-rejected",
+        E2eVerdict::OtherError(_) => "other-error",
+    }));
+    rec.nontrivial();
+    let render = || {
+        format!(
+            "zone [{}] query {} {} truth {}: server answered {:?} nsecs {{{}}}; direct verify_nsec = {:?}; DnssecDnsHandle = {:?}",
+            zone.render(),
+            qn,
+            ty::mnemonic(c.qtype),
+            truth,
+            sk,
+            render_nsecs(&parts.nsecs),
+            direct,
+            v
+        )
+    };
+    if rec.wants_note() {
+        rec.note(render());
+    }
+    if let E2eVerdict::OtherError(e) = &v {
+        return triage(Fail::new("nsec-e2e-other-error", format!("{}: {e}", render())));
+    }
+    // the end-to-end verdict must be the direct one (it additionally checks real signatures,
+    // which are all genuine here)
+    if e2e_secure != direct_secure {
+        let sig = if e2e_secure { "nsec-e2e-secure-but-direct-not" } else { "nsec-e2e-rejects-what-direct-accepts" };
+        return triage(Fail::new(sig, render()));
+    }
+    match (agree, e2e_secure) {
+        (true, true) => Ok(()),
+        (true, false) if sel.is_empty() => triage(Fail::new(
+            if zone.tree_owners().len() == 1 { "nsec-server-no-proof-in-apex-only-zone" } else { "nsec-server-attached-no-nsec" },
+            render(),
+        )),
+        (true, false) => triage(Fail::new(classify_incomplete(zone, &q, &truth, &parts), render())),
+        (false, false) => triage(Fail::new(shape_sig(&q, &truth, &sk), render())),
+        (false, true) => {
+            let claim = match sk {
+                ServerKind::NxDomain => Claim::NxDomain,
+                ServerKind::NoData => Claim::NoData,
+                ServerKind::WildAnswer(l) => Claim::WildAnswer { labels: l },
+                _ => Claim::NoData,
+            };
+            let chain = nsec_chain(zone);
+            let mut mask = 0u32;
+            for (i, r) in chain.iter().enumerate() {
+                let o = to_name(&r.owner);
+                if parts.nsecs.iter().any(|(n, _)| *n == o) {
+                    mask |= 1 << i;
+                }
+            }
+            let scx = SoundCtx { zone: zone.clone(), apex: hz.apex.clone(), hk: vec![], chain };
+            triage(Fail::new(
+                classify_unsound(&scx, &q, claim, &truth, parts.soa_name.is_some(), mask),
+                format!("{} although the claim is false in the zone", render()),
+            ))
+        }
+    }
+}
+
+// ---------------------------------------------------------------------------------------------
+// the chain hickory generates = the chain RFC 4035 §2.3 prescribes (the property's state anchor)
+
+#[derive(Clone, Debug, Serialize, Deserialize)]
+pub struct ChainCase {
+    pub zone: ZText,
+}
+
+/// type bitmap without the bits a validator must ignore (RFC 4035 §5.4: NSEC, RRSIG)
+pub fn bitmap_core(t: impl Iterator<Item = u16>) -> Vec<u16> {
+    let mut v: Vec<u16> = t.filter(|t| *t != ty::RRSIG && *t != ty::NSEC).collect();
+    v.sort_unstable();
+    v.dedup();
+    v
+}
+
+fn chain_body(c: &ChainCase, rec: &mut Rec) -> CaseResult {
+    let cx = hk_ctx(&c.zone)?;
+    let (zone, hz) = (&cx.0, &cx.1);
+    let model = nsec_chain(zone);
+    rec.class(format!("chain-len-{}", model.len().min(9)));
+    rec.class(if zone.cuts().is_empty() { "no-delegation" } else { "with-delegation" });
+    if zone.nodes.iter().any(|(o, _)| matches!(zone.pos(o), crate::refm::zonemodel::Pos::BelowCut(_))) {
+        rec.class("with-glue-or-occluded");
+    }
+    rec.nontrivial();
+    let want: Vec<(Name, Name, Vec<u16>)> = model
+        .iter()
+        .map(|r| (to_name(&r.owner), to_name(&r.next), bitmap_core(r.types.iter().copied())))
+        .collect();
+    let mut got: Vec<(Name, Name, Vec<u16>)> = hz
+        .chain_nsec
+        .iter()
+        .map(|(o, d)| (o.clone(), d.next_domain_name().clone(), bitmap_core(d.type_bit_maps().map(u16::from))))
+        .collect();
+    got.sort_by(|a, b| crate::refm::canon::name_cmp(
+        &a.0.iter().map(|l| l.to_vec()).collect::<Vec<_>>(),
+        &b.0.iter().map(|l| l.to_vec()).collect::<Vec<_>>(),
+    ));
+    if rec.wants_note() {
+        rec.note(format!("zone [{}]: {} NSEC records, owners and next names as RFC 4035 2.3", zone.render(), got.len()));
+    }
+    let show = |v: &[(Name, Name, Vec<u16>)]| {
+        v.iter()
+            .map(|(o, n, t)| format!("{o} -> {n} ({})", t.iter().map(|t| ty::mnemonic(*t)).collect::<Vec<_>>().join(" ")))
+            .collect::<Vec<_>>()
+            .join("; ")
+    };
+    let owners = |v: &[(Name, Name, Vec<u16>)]| v.iter().map(|x| x.0.clone()).collect::<Vec<_>>();
+    if owners(&want) != owners(&got) {
+        return triage(Fail::new(
+            "nsec-chain-owner-set-differs",
+            format!("zone [{}]: expected {{{}}} got {{{}}}", zone.render(), show(&want), show(&got)),
+        ));
+    }
+    if want.iter().zip(&got).any(|(w, g)| w.1 != g.1) {
+        return triage(Fail::new(
+            "nsec-chain-next-names-differ",
+            format!("zone [{}]: expected {{{}}} got {{{}}}", zone.render(), show(&want), show(&got)),
+        ));
+    }
+    if want.iter().zip(&got).any(|(w, g)| w.2 != g.2) {
+        return triage(Fail::new(
+            "nsec-chain-bitmaps-differ",
+            format!("zone [{}]: expected {{{}}} got {{{}}}", zone.render(), show(&want), show(&got)),
+        ));
+    }
+    Ok(())
+}
+
+// ---------------------------------------------------------------------------------------------
 
 pub fn check() -> Option<Check> {
-    None
+    // exhaustive sweep: every depth-2 zone with <= N owners x 32 query names x 4 types x every
+    // claim x SOA present/absent x all 2^k - 1 subsets of the chain (k <= N + 1)
+    let sound_enum = enumerate(
+        "sound_enum",
+        |env: &Env| match env.tier {
+            Tier::Quick => (enum_cases(3, 1, 0), true),
+            Tier::Thorough => (enum_cases(4, 1, 0), true),
+        },
+        sound_body,
+    );
+    // a deterministic slice of the next size class (zones with exactly N+1 owners)
+    let sound_slice = enumerate(
+        "sound_slice",
+        |env: &Env| {
+            let (n, stride) = match env.tier {
+                Tier::Quick => (4usize, 48usize),
+                Tier::Thorough => (5, 8),
+            };
+            let off = (env.seed % stride as u64) as usize;
+            let it = enum_cases(n, stride, off).filter(move |c| c.zone.as_str().matches(':').count() == n);
+            (Box::new(it) as Box<dyn Iterator<Item = SoundCase> + Send>, false)
+        },
+        sound_body,
+    );
+    let sound_sampled = prop("sound_sampled", 100_000, 4_000_000, |_t: Tier| sampled_sound(8), sound_body);
+    let chain_enum = enumerate(
+        "chain_enum",
+        |env: &Env| {
+            let n = match env.tier {
+                Tier::Quick => 3,
+                Tier::Thorough => 4,
+            };
+            (
+                Box::new(zones::enum_zones(zones::APEX2, &zones::U2_NAMES, n).into_iter().map(|zone| ChainCase { zone }))
+                    as Box<dyn Iterator<Item = ChainCase> + Send>,
+                true,
+            )
+        },
+        chain_body,
+    );
+    let chain_sampled = prop(
+        "chain_sampled",
+        5_000,
+        200_000,
+        |_t: Tier| zones::zone_text(10).prop_map(|zone| ChainCase { zone }),
+        chain_body,
+    );
+    let comp_enum = enumerate(
+        "complete_enum",
+        |env: &Env| match env.tier {
+            Tier::Quick => (comp_enum_cases(2, 1), true),
+            Tier::Thorough => (comp_enum_cases(4, 1), true),
+        },
+        comp_body,
+    );
+    let comp_sampled = prop("complete_sampled", 20_000, 600_000, |_t: Tier| sampled_comp(8), comp_body);
+    let comp_e2e = prop("complete_e2e", 5_000, 150_000, |_t: Tier| sampled_comp(6), e2e_body);
+    Some(Check {
+        id: "C08",
+        level: "exploration",
+        rule: "soundness case = (zone over labels {a,b,*} to depth 3 with hosts, CNAMEs, wildcards at several depths, empty non-terminals, delegations +/-DS, glue/occluded names; query name in or just outside the zone incl. labels c ! ~ and `*` in query names; query types) evaluated for every claim (NXDOMAIN, NODATA, each wildcard-expanded answer for which a genuine RRSIG exists, NXDOMAIN+answer) x SOA name present/absent x every non-empty subset of the zone's genuine NSEC chain (all 2^k-1 subsets for k<=6, otherwise singletons, full, full-minus-one and 48 pseudo-random subsets); counted non-trivial when the query name is in the zone (then some evaluated claim is false, or some subset is Secure, or proper subsets of a sufficient proof are tried); counters give verify_nsec calls, Secure verdicts, true/false claims. sound_enum is the exhaustive depth-2 sweep (quick <=3 owners, thorough <=4 owners, i.e. k<=5), sound_slice a 1/48 (quick, 4 owners) resp. 1/8 (thorough, 5 owners) slice of the next size. chain_* compare the NSEC chain hickory generates with the RFC 4035 2.3 chain of the model. Completeness case = (zone, query) whose truth is negative or wildcard-expanded, answered by hickory's own signed zone through Catalog::handle_request and judged by verify_nsec (complete_enum exhaustive over depth-2 zones with <=2/<=4 owners x 32 names x 4 types; complete_sampled deeper zones) and by the real DnssecDnsHandle (complete_e2e); every such case is non-trivial.",
+        assumptions: vec![
+            "truth predicate = refm::zonemodel (RFC 1034 4.3.2, RFC 4592 existence/closest encloser/source of synthesis incl. ENT wildcards, RFC 4035 3.1.4 DS at the parent side); small scope: labels {a,b,*,c,!,~}, query depth <= 4, <= 10 owners",
+            "answers passed to verify_nsec carry proof=Secure (state after a successful RRSIG check); wildcard answers only with RRSIGs that can verify (a genuine wildcard owner above the query name)",
+            "delegation points own NS (+DS) only; CNAME targets are out of zone; no DNAME",
+            "when the server's answer does not have the shape the truth predicts and the validator rejects it, the deviation is recorded under a server-* signature (root cause in the authoritative lookup, property C10) rather than discarded",
+        ],
+        subs: vec![
+            sound_enum,
+            sound_slice,
+            sound_sampled,
+            chain_enum,
+            chain_sampled,
+            comp_enum,
+            comp_sampled,
+            comp_e2e,
+        ],
+    })
 }
